@@ -25,17 +25,19 @@ Definition reaching_before (f : func) (m : rdmap) (l : floc) : res lset :=
 Definition def_matches (r : scalar) (wd : option (list scalar)) : bool :=
   match wd with Some v => existsb (fun w => scalar_eqb w r) v | None => false end.
 
-(* the double loop shared by both functions:
+(* the double loop shared by both functions (sequential, the first failing unwrap aborts):
      for scalar_read in reads { for rd in reaching { for scalar_written in rd...scalars_written() (unwrap, unwrap)
         { if scalar_written == scalar_read { ADD rd } } } } *)
-Definition scan {A} (f : func) (reads : list scalar) (reaching : lset) (add : floc -> A -> A) (init : A) : res A :=
-  fold_left (fun acc r =>
-               a <- acc ;;
-               fold_left (fun acc2 d =>
-                            a2 <- acc2 ;; wd <- loc_written f d ;;
-                            Ok (if def_matches r wd then add d a2 else a2))
-                         reaching (Ok a))
-            reads (Ok init).
+Fixpoint scan_inner {A} (f : func) (r : scalar) (reaching : lset) (add : floc -> A -> A) (a : A) : res A :=
+  match reaching with
+  | [] => Ok a
+  | d :: t => wd <- loc_written f d ;; scan_inner f r t add (if def_matches r wd then add d a else a)
+  end.
+Fixpoint scan {A} (f : func) (reads : list scalar) (reaching : lset) (add : floc -> A -> A) (a : A) : res A :=
+  match reads with
+  | [] => Ok a
+  | r :: t => a' <- scan_inner f r reaching add a ;; scan f t reaching add a'
+  end.
 
 (* what the `match location.function_location().apply(function).unwrap()` dispatch reads and where
    it looks the definitions up: (scalars read, definitions consulted); None = contributes nothing *)
